@@ -369,11 +369,20 @@ def check(ctx: Ctx) -> None:
             ob.violation(f_from, unpacks[0], f"header format differs: writer {fp!r}, reader {fu!r}")
         if fp != ref.HEADER_FORMAT:
             ob.violation(f_to, packs[0], f"header format {fp!r} is not the wire format {ref.HEADER_FORMAT!r} (type 1, channel 4, payload length 4, big-endian)")
-        want = [f"self.{fields[0]}", f"self.{fields[1]}", f"len(self.{fields[2]})"] if len(fields) == 3 else []
+        # roles on value terms: what reaches the pack call / what the unpacked fields are used for
+        from ..terms import const as _c, evaluator as _ev, show as _show
         from ..util import xtext as _xt, expand as _ex
-        have = [_xt(repo, f_to, a) for a in pack_args]
-        if have != want:
-            ob.violation(f_to, packs[0], f"header fields packed as {have}, expected {want}")
+        want_t = (("sym", f"self.{fields[0]}"), ("sym", f"self.{fields[1]}"), ("pcall", "len", (("sym", f"self.{fields[2]}"),), ())) if len(fields) == 3 else ()
+        evto = _ev(repo, f_to)
+        npk = 0
+        for (_p, st_) in evto.run(limit=4000):
+            for e in st_.events:
+                if e.kind == "call" and (e.callee == "struct.pack" or (e.attr == "pack" and e.node is packs[0])):
+                    npk += 1
+                    have_t = e.args[1:] if e.callee == "struct.pack" else e.args
+                    if have_t != want_t:
+                        ob.violation(f_to, packs[0], f"header fields packed as {[_show(x) for x in have_t]}, expected {[_show(x) for x in want_t]}")
+        ob.require(npk >= 1, "pack of the frame header not evaluated on any path")
         reads = [c for c in repo.calls_in(f_from) if callee_attr(c) == "read"]
         ob.require(len(reads) == 2, "from_io: two reads (header, payload) expected")
         from ..util import expand as _exp
@@ -381,18 +390,21 @@ def check(ctx: Ctx) -> None:
         ob.site(f_from, reads[0], "header read size == calcsize(format)", size=hsize)
         if isinstance(fu, str) and hsize != struct.calcsize(fu):
             ob.violation(f_from, reads[0], f"header read of {hsize} bytes != calcsize({fu!r}) = {struct.calcsize(fu)}")
-        asg = repo.parent(unpacks[0])
-        if isinstance(asg, ast.Assign) and isinstance(asg.targets[0], ast.Tuple) and len(asg.targets[0].elts) == 3:
-            a, b, c = [unparse(x) for x in asg.targets[0].elts]
-            ctor = [x for x in repo.calls_in(f_from) if isinstance(x.func, ast.Name) and x.func.id == "Message"]
-            ob.require(len(ctor) == 1, "from_io: Message(...) construction not found")
-            xargs = [_ex(repo, f_from, x) for x in ctor[0].args]
-            args = [unparse(x) for x in xargs]
-            ob.site(f_from, ctor[0], "unpacked fields reach Message() in their roles", args=args)
-            if len(args) != 3 or args[0] != a or args[1] != b or not (isinstance(xargs[2], ast.Call) and callee_attr(xargs[2]) == "read"
-                                                                     and unparse(xargs[2].args[0]) == c):
-                ob.violation(f_from, ctor[0], f"unpacked header fields ({a}, {b}, {c}) do not reach Message(msgcode, channelid, read(length)) in their roles")
-        else:
+        evfrom = _ev(repo, f_from)
+        nctor = 0
+        for (pth, st_) in evfrom.run(limit=4000):
+            ups = [e for e in st_.events if e.kind == "call" and e.node is unpacks[0]]
+            ctors = [e for e in st_.events if e.kind == "call" and e.callee == "Message"]
+            for ct in ctors:
+                nctor += 1
+                bases = [ups[0].result, ("pcall", "tuple", (ups[0].result,), ())] if ups else []
+                a3 = ct.args
+                rd = [e for e in st_.events if e.kind == "call" and len(a3) == 3 and e.result == a3[2] and e.attr == "read"]
+                ok = len(a3) == 3 and any(a3[0] == ("idx", B, _c(0)) and a3[1] == ("idx", B, _c(1)) and rd and rd[0].args == (("idx", B, _c(2)),) for B in bases)
+                ob.site(f_from, ct.node, "unpacked fields reach Message() in their roles", args=[_show(x) for x in a3], ok=ok)
+                if not ok:
+                    ob.violation(f_from, ct.node, "unpacked header fields do not reach Message(msgcode, channelid, read(length)) in their roles")
+        if nctor == 0:
             ob.violation(f_from, unpacks[0], "header is not unpacked into three fields")
         # empty header -> EOFError
         hvar = unparse(repo.parent(reads[0]).targets[0]) if isinstance(repo.parent(reads[0]), ast.Assign) else None
